@@ -207,7 +207,10 @@ class Fn:
         if self._body is None:
             with open(self.unit["bodies"], "rb") as f:
                 f.seek(self.e["off"])
-                self._body = json.loads(f.read(self.e["len"]))
+                b = json.loads(f.read(self.e["len"]))
+            if self.fb is not None and self.fb.new_helpers:
+                b = inline_new_helpers(self.fb, b, (self.path,))
+            self._body = b
         return self._body
 
     def callees(self):
@@ -219,6 +222,129 @@ class Fn:
 
     def __repr__(self):
         return "<Fn %s>" % self.path
+
+
+# ---------------------------------------------------------------------------------------------------------
+# Normalisation: helper functions that did not exist when the rules were armed (spec/fn_inventory.txt) are
+# inlined into their callers at the MIR level before any rule runs.  Extracting a private helper out of an
+# anchored function is the most common behaviour-preserving edit; without this the helper would be an opaque
+# call and every shape rule on the caller would fail closed.  It is also stricter, not laxer: logic moved into a
+# new helper is analysed as part of each caller instead of being skipped.
+def _ml(l, lo):
+    """callee local -> caller local.  lo = (offset, dest): the callee's return slot becomes the call's destination local
+    itself when that is a plain local (so `_0 = helper(..)` keeps its Ok/Err assignments visible as return assignments)"""
+    off, dest = lo
+    if l == 0 and dest is not None:
+        return dest
+    return l + off
+
+
+def _mp(pl, lo):
+    q = dict(pl)
+    q["l"] = _ml(pl["l"], lo)
+    if pl.get("p"):
+        q["p"] = [dict(e, idx=_ml(e["idx"], lo)) if isinstance(e, dict) and "idx" in e else e for e in pl["p"]]
+    return q
+
+
+def _mo(op, lo):
+    for k in ("cp", "mv"):
+        if k in op:
+            q = dict(op)
+            q[k] = _mp(op[k], lo)
+            return q
+    return op
+
+
+def _mrv(rv, lo):
+    q = dict(rv)
+    for k in ("a", "b"):
+        if k in q and isinstance(q[k], dict):
+            q[k] = _mo(q[k], lo)
+    if "pl" in q:
+        q["pl"] = _mp(q["pl"], lo)
+    if "ops" in q:
+        q["ops"] = [_mo(o, lo) for o in q["ops"]]
+    return q
+
+
+def inline_new_helpers(fb, body, stack, budget=[0]):
+    blocks = body["blocks"]
+    sites = []
+    for bi, blk in enumerate(blocks):
+        t = blk["t"]
+        if t["k"] == "call":
+            f = t["f"]
+            name = f.get("res") or f.get("def")
+            if name in fb.new_helpers and name not in stack and name in fb.helper_fns:
+                sites.append((bi, name))
+    if not sites:
+        return body
+    body = dict(body)
+    blocks = list(blocks)
+    locals_ = list(body["locals"])
+    dbg = list(body.get("dbg", []))
+    for bi, name in sites:
+        h = fb.helper_fns[name]
+        with open(h.unit["bodies"], "rb") as f:
+            f.seek(h.e["off"])
+            hb = json.loads(f.read(h.e["len"]))
+        hb = inline_new_helpers(fb, hb, stack + (name,))
+        if len(blocks) + len(hb["blocks"]) > 6000:
+            continue
+        call = blocks[bi]["t"]
+        off, bo = len(locals_), len(blocks)
+        plain_dest = call["dest"]["l"] if not call["dest"].get("p") else None
+        lo = (off, plain_dest)
+        locals_.extend(hb["locals"])
+        for d in hb.get("dbg", []):
+            d2 = {"name": d["name"], "pl": _mp(d["pl"], lo)}
+            dbg.append(d2)
+        argc = h.e.get("argc", 0)
+        pre = []
+        for k, a in enumerate(call["args"][:argc]):
+            pre.append({"k": "assign", "pl": {"l": off + 1 + k}, "rv": {"k": "use", "a": a}, "ln": call.get("ln"), "inl": name})
+        nb = dict(blocks[bi])
+        nb["s"] = list(nb["s"]) + pre
+        nb["t"] = {"k": "goto", "t": bo, "ln": call.get("ln"), "inl": name}
+        blocks[bi] = nb
+        for hblk in hb["blocks"]:
+            ss = [dict(s, pl=_mp(s["pl"], lo), rv=_mrv(s["rv"], lo)) if s["k"] == "assign" else s for s in hblk["s"]]
+            t = dict(hblk["t"])
+            k = t["k"]
+            if k == "return":
+                if plain_dest is None:
+                    ss.append({"k": "assign", "pl": call["dest"], "rv": {"k": "use", "a": {"mv": {"l": off}}}, "ln": call.get("ln"), "inl": name})
+                t = {"k": "goto", "t": call["t"], "ln": t.get("ln")} if call.get("t") is not None else {"k": "unreachable", "ln": t.get("ln")}
+            else:
+                if t.get("t") is not None and k in ("goto", "drop", "call", "assert"):
+                    t["t"] = t["t"] + bo
+                if k == "switch":
+                    t["targets"] = [[v, tb + bo] for v, tb in t["targets"]]
+                    t["otherwise"] = t["otherwise"] + bo
+                    t["d"] = _mo(t["d"], lo)
+                if k == "drop":
+                    t["pl"] = _mp(t["pl"], lo)
+                if k == "assert":
+                    t["cond"] = _mo(t["cond"], lo)
+                if k == "call":
+                    t["args"] = [_mo(a, lo) for a in t["args"]]
+                    t["dest"] = _mp(t["dest"], lo)
+            blocks.append({"s": ss, "t": t})
+    body["blocks"] = blocks
+    body["locals"] = locals_
+    body["dbg"] = dbg
+    body["inlined"] = sorted(set(n for _, n in sites))
+    return body
+
+
+def _load_inventory():
+    p = os.path.join(VERIF, "spec", "fn_inventory.txt")
+    try:
+        with open(p) as f:
+            return set(l.strip() for l in f if l.strip())
+    except OSError:
+        return None
 
 
 class FactBase:
@@ -260,6 +386,49 @@ class FactBase:
                     i["crate"] = u["name"]
                     self.impls.append(i)
         self._callers = None
+        self.new_helpers = set()
+        self.helper_fns = {}
+        self._normalise_new_helpers()
+
+    def _normalise_new_helpers(self):
+        """functions that are not in the armed inventory, are not public API, are called directly (never taken as a
+        function value) and are not trait-impl methods are *new helpers*: inlined into their callers, their calls are
+        attributed to the callers, and they are removed from the function table"""
+        inv = _load_inventory()
+        if inv is None or os.environ.get("VERIF_NO_INLINE"):
+            return
+        new = {}
+        valued = set()
+        for p, f in self.fns.items():
+            for v in f.e.get("fn_values", []):
+                valued.add(v)
+        for p, f in self.fns.items():
+            if f.e["kind"] in ("Fn", "AssocFn") and p not in inv and not p.startswith("<") and \
+                    f.e.get("vis") != "Public" and p not in valued:
+                new[p] = f
+        if not new:
+            return
+        self.new_helpers = set(new)
+        self.helper_fns = new
+
+        def expand(calls, stack):
+            out = []
+            for c in calls:
+                n = c.get("res") or c.get("def")
+                if n in new and n not in stack:
+                    out.extend(expand(new[n].e.get("calls", []), stack | {n}))
+                else:
+                    out.append(c)
+            return out
+        for p, f in list(self.fns.items()):
+            if p in new:
+                continue
+            cs = f.e.get("calls", [])
+            if any((c.get("res") in new or c.get("def") in new) for c in cs):
+                f.e["calls"] = expand(cs, frozenset([p]))
+        # closures defined inside a helper stay in the table (they are called through their aggregate)
+        for p in new:
+            del self.fns[p]
 
     # ------------------------------------------------------------------
     def fn(self, path):
